@@ -26,6 +26,13 @@ CHECKS = {
     ),
 }
 
+CHECKS["C20"] = dict(
+    text="Static taint analysis (forward may-analysis of explicit flows over the exploded CFG; callee output summaries computed by analysing callees to depth 2, context-sensitive on literal arguments, with implicit flows into callee return values) of the 17 *_sec copy/swap/compare primitives and 31 ladder / regular-recoding multiplication and exponentiation bodies (ep, ep2..ep8, ed, eb, bn_mxp, fp_exp, fb_exp, gt_exp_sec and their static helpers). Decides that no branch condition, no subscript of a table of group elements and no delegation to a non-regular routine depends on the selection bit, the compared data or the content of the secret scalar. Right level: such dependences compute the right value, so no functional test can see them. Machine-level timing is not decided.",
+    design_ref="DESIGN.md section 3 (C20)",
+    note="Trusted: clang parser/CFG, extractor, the table of constant-time entry points with their secret parameter (a vanished parameter name is analysis-broken), the declassification of bit length / sign / zero-ness of the input scalar and of the shape fields used/sign (the property's own 'public bit length'), arithmetic callees treated as atomic operations. Validated on every run by miniatures in sa/selftest/c20.c.",
+    technique="interprocedural taint (information-flow) analysis over the clang CFG",
+)
+
 NOT_APPLICABLE = {
     "C10": "every clause is an equality of ring elements for all operand values; no guard, ordering or ownership structure whose violation is visible in the code's shape, and lazy-reduction bounds need a relational numeric domain that goto-analyzer's intervals cannot carry across the *_low calls",
     "C11": "group law, [k]Q, Frobenius eigenvalue and cofactor image are algebraic identities over runtime values; the structural clauses (decoders, buffers, regularity) of the ep2..ep8 siblings are decided under C07, C08 and C20",
